@@ -1,6 +1,7 @@
 import Vanguard.Model.Run
 import Vanguard.Lemmas.CleanStream
 import Vanguard.Lemmas.ReframeStream
+import Vanguard.Lemmas.RespStream
 import Vanguard.Model.World
 /-!
   C01 — Messages arrive intact across every protocol, codec and compression pairing.
@@ -135,5 +136,25 @@ example : EReads fakeWorld dSt {} [3, 100, 100, 1, 9] [0, 0, 0, 0, 2, 7, 8] .eof
   refine .more _ _ _ _ [7] _ _ _ _ _ (by decide) rfl ?_
   refine .more _ _ _ _ [8] _ _ _ _ _ (by decide) rfl ?_
   exact .last _ _ _ _ [] _ _ _ _ (by decide) rfl
+
+/-- **The client receives exactly the backend's messages** (response direction, re-encoding path,
+    streaming client): a backend that writes a whole well-formed response stream - legal frames in its
+    own framing, every message convertible and within the limit (`respConvertedAll`) - makes the
+    transcoder put exactly those messages on the client's connection, each converted and under the
+    client's envelope, in order, flushed, without error or panic. -/
+theorem client_receives_exactly_the_messages (w : World) (tb : Tables) (se cc : Enveloper) (st : St) (fs : List Frame) (outs : Bytes)
+    (hb : st.rw.buf = none) (hse : st.op.serverEnveloper = some se) (hcc : st.op.clientEnveloper = some cc)
+    (hok : ∀ x ∈ fs, x.ok se st.op.conf.maxMsg) (hconv : respConvertedAll w st se cc fs = some outs) :
+    (twWrite w tb st {} (framesBytes fs)).2.2.1 = false ∧ (twWrite w tb st {} (framesBytes fs)).2.2.2 = false ∧
+    rawBytes (twWrite w tb st {} (framesBytes fs)).1.sink.items = rawBytes st.sink.items ++ outs ∧
+    (fs ≠ [] → (twWrite w tb st {} (framesBytes fs)).1.sink.flushedN
+                = some (twWrite w tb st {} (framesBytes fs)).1.sink.items.length) :=
+  twWrite_clean_stream w tb se cc st fs outs hb hse hcc hok hconv
+
+/-- Non-vacuity (kernel-evaluated): a gRPC backend (codec `hexa`) answers a gRPC-Web client (codec `raw`)
+    with the message "07" and an empty message: both convert, and the client is to receive `07` and the
+    empty message under its own envelopes. -/
+example : respConvertedAll fakeWorld dSt .grpcServer .grpcWebClient [⟨0, 0, 0, 0, 2, [0x30, 0x37]⟩, ⟨0, 0, 0, 0, 0, []⟩]
+    = some [0, 0, 0, 0, 1, 7, 0, 0, 0, 0, 0] := by decide +kernel
 
 end Vanguard.C01
